@@ -15,13 +15,23 @@ struct Even;
 impl assert_struct::Like<Even> for i32 { fn like(&self, _: &Even) -> bool { self % 2 == 0 } }
 struct Prefix(&'static str);
 impl assert_struct::Like<Prefix> for String { fn like(&self, p: &Prefix) -> bool { self.starts_with(p.0) } }
+trait MkPrefix { fn prefix(self) -> Prefix; }
+impl MkPrefix for &'static str { fn prefix(self) -> Prefix { Prefix(self) } }
+struct Len(usize);
+impl assert_struct::Like<Len> for String { fn like(&self, n: &Len) -> bool { self.len() == n.0 } }
+trait MkLen { fn l(self) -> Len; }
+impl MkLen for usize { fn l(self) -> Len { Len(self) } }
+fn even() -> Even { Even }
 #[derive(Debug)] struct U { n: i32, s: String, o: Option<i32>, v: Vec<i32> }
 fn u() -> U { U { n: 4, s: "hello".to_string(), o: Some(7), v: vec![2, 3] } }
 '''
 # assertions that rely on a USER Like impl: must compile and behave identically in both configurations
 USER_LIKE = ["U { n: =~ Even, .. }", "U { s: =~ Prefix(\"he\"), .. }", "U { s: =~ Prefix(\"zz\"), .. }", "U { o: Some(=~ Even), .. }",
              "U { v: [=~ Even, ..], .. }", "U { v: [_, =~ Even], .. }", "U { n: =~ Even, s: =~ Prefix(\"x\"), o: Some(> 9), .. }",
-             "_ { n: =~ Even, .. }", "U { v: #(=~ Even, 3), .. }", "U { v.len(): 2, n: =~ Even, .. }"]
+             "_ { n: =~ Even, .. }", "U { v: #(=~ Even, 3), .. }", "U { v.len(): 2, n: =~ Even, .. }",
+             # operands of every expression shape: beginning with a string literal, a call, a block, a reference, parenthesised
+             "U { s: =~ \"he\".prefix(), .. }", "U { s: =~ \"zz\".prefix(), .. }", "U { s: =~ \"hello\".len().l(), .. }", "U { s: =~ (\"he\").prefix(), .. }",
+             "U { n: =~ even(), .. }", "U { n: =~ { Even }, .. }", "U { s: =~ Prefix(&\"hello\"[..2]), .. }", "U { s: =~ r\"he\".prefix(), .. }"]
 # regex literals in every position: must be rejected at compile time without the feature
 REGEX_LIT = ["U { s: =~ r\"^he\", .. }", "U { s: =~ \"^he\", .. }", "_ { s: =~ r\"lo$\", .. }", "U { n: 4, s: =~ r\"x\", .. }",
              "U { o: Some(7), s: =~ r\"^h\", v: [2, 3], .. }"]
